@@ -143,6 +143,7 @@ type mapRangeInfo struct {
 }
 
 type FuncEnc struct {
+	rejectN    int // reject sites met so far (labels)
 	eng       *Engine
 	fn        *ssa.Function
 	name      string
